@@ -167,6 +167,14 @@ func Report(t interface {
 	t.Fatalf("VIOLATION %s: %s", sig, v.Detail)
 }
 
+// HistoryInfo: how this worker process got to the current run (for witnesses a
+// world writes itself, e.g. before an event that may kill the process).
+func HistoryInfo() (seed, worker uint64, checks string, runIndex uint64) {
+	mu.Lock()
+	defer mu.Unlock()
+	return curSeed, workerSeed, checksStr, stats.Runs
+}
+
 // Main must be called from TestMain: it runs the tests and writes the stats.
 func Main(m *testing.M, world string) {
 	start := time.Now()
